@@ -29,13 +29,90 @@ def slots_hook(slots):
     return attr_hook
 
 
+IDLE_REPLAY = '''import sys, os, copy, pickle, itertools
+sys.path.insert(0, os.environ.get('PYVC_REPO', '/repo'))
+import __main__
+import param
+bad = []
+SNAP = []
+MAKE = [None]
+class Model(param.Parameterized):
+    x = param.Number(default=0)
+    y = param.Number(default=0)
+    z = param.Number(default=0)
+    log = param.List(default=[])
+    def __init__(self, queued=True, snap_precedence=1, **params):
+        super().__init__(**params)
+        self.param.watch(self._derive_y, 'x', queued=queued, precedence=1)
+        self.param.watch(self._snap, 'x', precedence=snap_precedence)
+        self.param.watch(self._on, ['y', 'z'])
+    def _derive_y(self, event):
+        self.y = event.new * 10
+    def _snap(self, event):
+        if MAKE[0] is not None:
+            SNAP.append(MAKE[0](self))
+    def _on(self, *events):
+        self.log.extend((e.name, e.old, e.new) for e in events)
+__main__.Model = Model
+def dispatch_state(o):
+    p = o.param
+    return (p._BATCH_WATCH, p._TRIGGER, list(p._events), list(p._state_watchers))
+makers = [('deepcopy', copy.deepcopy)] + [('pickle%d' % k, (lambda k: lambda o: pickle.loads(pickle.dumps(o, k)))(k)) for k in (2, pickle.HIGHEST_PROTOCOL)]
+for (how, make), queued, prec, where in itertools.product(makers, (True, False), (0, 2), ('watcher', 'batch', 'update', 'discard', 'plain')):
+    del SNAP[:]
+    m = Model(queued=queued, snap_precedence=prec)
+    label = '%s queued=%s snapshot-precedence=%d taken-in=%s' % (how, queued, prec, where)
+    try:
+        if where == 'watcher':
+            MAKE[0] = make; m.x = 1; MAKE[0] = None
+        elif where == 'batch':
+            with param.parameterized.batch_call_watchers(m):
+                m.x = 1; SNAP.append(make(m))
+        elif where == 'update':
+            with m.param.update(x=1):
+                SNAP.append(make(m))
+        elif where == 'discard':
+            with param.parameterized.discard_events(m):
+                m.x = 1; SNAP.append(make(m))
+        else:
+            m.x = 1; SNAP.append(make(m))
+    finally:
+        MAKE[0] = None
+    for snap in SNAP:
+        st = dispatch_state(snap)
+        if st != (False, False, [], []):
+            bad.append('%s: the copy starts with dispatch state BATCH_WATCH=%r TRIGGER=%r %d queued events %d queued watchers'
+                       % (label, st[0], st[1], len(st[2]), len(st[3])))
+            continue
+        before = list(snap.log)
+        snap.z = 3
+        new = snap.log[len(before):]
+        if new != [('z', 0, 3)]:
+            bad.append('%s: after the copy is assigned z=3 its watcher saw %r (only the z change happened to the copy)' % (label, new))
+if bad:
+    print('REPRODUCED: ' + bad[0]); sys.exit(1)
+print('NOT-REPRODUCED'); sys.exit(0)
+'''
+
+
 def roundtrip_contract(cls, slots, use_hook, name):
     def configure(I):
         if use_hook:
             I.attr_hook = slots_hook(slots)
 
     def setup(I, st):
-        src, T = S.param_obj(I, st, cls, {s: None for s in slots}, label="original", lazy=False)
+        fields = {s: None for s in slots}
+        if cls == "_InstancePrivate" and "parameters_state" in fields:
+            # the original may be in the middle of ANY operation: arbitrary flags, arbitrary queues
+            ps = I.alloc_dict(st)
+            for k_ in ("BATCH_WATCH", "TRIGGER"):
+                b = I.U.fresh("state_" + k_)
+                st.pc.append(S.is_bool(I, b))
+                I.dict_store(st, ps, Conc(k_), Sym(b))
+            I.dict_store(st, ps, Conc("events"), I.alloc_list(st, I.U.fresh_seq("queued_events")))
+            I.dict_store(st, ps, Conc("watchers"), I.alloc_list(st, I.U.fresh_seq("queued_watchers")))
+            fields["parameters_state"] = ps
+        src, T = S.param_obj(I, st, cls, fields, label="original", lazy=False)
         dst = I.alloc_obj(st, cls, lazy=False, label="copy")      # created without __init__ (A-PICKLE)
         return {"src": src, "dst": dst, "T": T, "symbols": {}}
 
@@ -80,6 +157,9 @@ def roundtrip_contract(cls, slots, use_hook, name):
         return out
     c = FunctionContract("%s:%s.__setstate__" % (MOD, cls), PROP, setup, post, configure=configure, name=name)
     c.runner = runner
+    if cls == "_InstancePrivate":
+        c.static_replay = IDLE_REPLAY
+        c.static_witness = "a copy taken while the original is in the middle of a dispatch (inside a watcher, a batch, an update or discard_events)"
     return c
 
 
